@@ -19,7 +19,7 @@ type ComparableOrdered[T Ordered] struct {
 
 // CompareTo Compare with an another object
 func (obj ComparableOrdered[T]) CompareTo(input interface{}) int {
-	return CompareToOrdered(obj.Val, input.(ComparableOrdered[T]).Val)
+	return CompareToOrdered(input.(ComparableOrdered[T]).Val, obj.Val)
 }
 
 // NewComparableString Generate a String Comparable for Comparator
@@ -58,7 +58,7 @@ func SortedListBySortDescriptors[T any](sortDescriptors []SortDescriptor[T], inp
 // SortBySortDescriptors Sort items by sortDescriptors
 func SortBySortDescriptors[T any](sortDescriptors []SortDescriptor[T], input []T) {
 	Sort(func(item1 T, item2 T) bool {
-		return _compareBySortDescriptors(item1, item2, sortDescriptors, 0) >= 0
+		return _compareBySortDescriptors(item1, item2, sortDescriptors, 0) < 0
 	}, input)
 }
 
@@ -69,9 +69,9 @@ func _compareBySortDescriptors[T any](item1 T, item2 T, sortDescriptors []SortDe
 	result := 0
 	if key1 != nil && key2 != nil {
 		if descriptor.IsAscending() {
-			key1.CompareTo(key2)
+			result = key1.CompareTo(key2)
 		} else {
-			key2.CompareTo(key1)
+			result = key2.CompareTo(key1)
 		}
 	}
 	if key1 != nil && key2 == nil {
